@@ -182,13 +182,21 @@ fn enumerate(_tier: Tier, idx: u32, of: u32, cx: &mut Cx) -> CaseResult {
         ("huge-blocks", crate::probes::huge_block_tree()),
         ("huge-file", crate::probes::huge_file_tree()),
         ("big-hunk", crate::probes::big_hunk_tree()),
+        // 700 directories while the process may hold at most 512 open files
+        ("many-dirs-low-fd-limit", crate::probes::many_dirs_tree()),
     ] {
         crate::engine::heartbeat();
         let t0 = std::time::Instant::now();
         let sub = cx.dir(name);
         std::fs::create_dir_all(&sub).unwrap();
         let mut cx2 = crate::engine::sub_cx(cx, sub.clone());
-        run(&Case { opts, tree, record_owner: true }, &mut cx2).map_err(|mut f| {
+        let case = Case { opts, tree, record_owner: true };
+        let outcome = if name == "many-dirs-low-fd-limit" {
+            crate::probes::with_fd_limit(512, || run(&case, &mut cx2))
+        } else {
+            run(&case, &mut cx2)
+        };
+        outcome.map_err(|mut f| {
             f.signature = format!("{}/probe-{name}", f.signature);
             f.inner = serde_json::json!({"probe": name});
             f
